@@ -180,7 +180,7 @@ pub fn main_c24(args: &Args) -> Report {
         "generated scripts of 1-3 dependencies (CREATE->MATCH SET, CREATE->MERGE, CREATE->DELETE, SET->WHERE, CREATE->MATCH CREATE rel, MERGE->MERGE, DELETE->MATCH, CREATE rel->MATCH rel, SET->aggregate) run inside one explicit C API transaction (ndb_begin_write / ndb_txn_query / ndb_txn_commit) and, on a twin database, as consecutive ndb_execute_write statements; the final uid-keyed graph content must be equal. A cell is a dependency kind",
     );
     rep.assume("the sequential auto-commit run is the reference; scripts whose reference run reports an error are not judged");
-    let n = if args.thorough() { 8000 } else { 2000 };
+    let n = if args.thorough() { 60_000 } else { 2000 };
     let deadline = Instant::now() + Duration::from_secs(args.budget_s(90, 900));
     let seed = args.seed;
     let (mut out, _) = par_cases(n, threads(), Some(deadline), |k| {
@@ -405,7 +405,7 @@ pub fn main_c13(args: &Args) -> Report {
         "scripts of 2-5 write statements with one constructed failing statement at a generated position (multi-row UNWIND whose expression raises at a chosen row: list index type error, toBoolean/toInteger on a bad value, map inside a list property; non-DETACH delete of a connected node, also after a CREATE in the same statement; syntax and compile-time errors) run through ndb_execute_write and inside ndb_begin_write/ndb_txn_query/ndb_txn_commit, against a twin database running the script without the failing statement; final uid-keyed content must be equal. A cell is (failure kind, mode)",
     );
     rep.assume("a constructed statement that does not fail is not judged (inconclusive)");
-    let n = if args.thorough() { 12000 } else { 3000 };
+    let n = if args.thorough() { 150_000 } else { 3000 };
     let deadline = Instant::now() + Duration::from_secs(args.budget_s(90, 900));
     let seed = args.seed;
     let (mut out, _) = par_cases(n, threads(), Some(deadline), |k| {
@@ -774,7 +774,7 @@ pub fn main_c14(args: &Args) -> Report {
         "generated histories of CREATE node/relationship, DELETE (non-DETACH, judged against a harness-side reference of which node has relationships), DETACH DELETE, relationship DELETE, create-relationship-then-delete-endpoint in one statement, compaction and reopen; after every statement an invariant scan: every relationship returned by neighbors/incoming_neighbors and by MATCH in both pattern directions has two live endpoints, outgoing and incoming views describe the same multiset. A cell is a statement kind",
     );
     rep.assume("refusal is judged only where the reference is certain (the statement itself is well-formed and earlier statements succeeded)");
-    let n = if args.thorough() { 10000 } else { 2500 };
+    let n = if args.thorough() { 150_000 } else { 2500 };
     let deadline = Instant::now() + Duration::from_secs(args.budget_s(90, 900));
     let seed = args.seed;
     let (mut out, _) = par_cases(n, threads(), Some(deadline), |k| {
